@@ -39,6 +39,7 @@ def run(ctx):
     model = core.Model()
     try:
         run_(ctx, model)
+        same_samples_other_headers(ctx, gen.rng_for(ctx.seed, 'c12-twins'))
     finally:
         model.close()
 
@@ -117,6 +118,43 @@ def run_(ctx, model):
                 probs.append(f're-blocked file cannot be read: {type(e).__name__}: {str(e)[:120]}')
         for p in probs:
             ctx.fail('re-blocked file: ' + p, desc)
+
+
+def same_samples_other_headers(ctx, rng):
+    """two sources with the same samples and grid (hence the same source-data hash) and different header arrays, re-blocked
+    one after the other in this process by fresh converter objects: each output carries its own source's headers"""
+    for k in range(ctx.n(3, 30)):
+        n = (int(rng.choice([5, 8, 66])), int(rng.choice([6, 65, 9])), int(rng.choice([4, 9])))
+        na = int(rng.integers(1, 5))
+        srcs, outs = [], []
+        for j in range(2):
+            fi = synth.make(ctx.path(f'twin{j}.sgz'), n, (4, 4, 1024), 8, gen.rng_for(ctx.seed, 'c12-twin', k, j), n_arrays=na,
+                            dups=False)
+            srcs.append(fi)
+        if sorted(srcs[0].arrays) != sorted(srcs[1].arrays):
+            continue
+        desc = {'n': n, 'arrays': sorted(srcs[0].arrays), 'twins': 'same samples and grid, different header values'}
+        ctx.case(('twins', n, tuple(sorted(srcs[0].arrays))), sample=desc)
+        ctx.stats['twin_sources'] += 1
+        with symcodec.symbolic_decoder():
+            for j, fi in enumerate(srcs):
+                out = ctx.path(f'twin{j}_adv.sgz')
+                try:
+                    with SgzConverter(fi.path) as c:
+                        if j == 0:
+                            for key in list(c.stored_header_keys):
+                                c.get_tracefield_values(key)
+                        env.quiet(c.convert_to_adv_sgz, out)
+                except Exception as e:  # noqa
+                    ctx.fail(f're-block of twin source {j} failed: {type(e).__name__}: {str(e)[:100]}', desc)
+                    break
+                want = spec.read_footer_arrays(fi.path)
+                got = spec.read_footer_arrays(out)
+                for code in want:
+                    if code not in got or not np.array_equal(np.asarray(got[code]), np.asarray(want[code])):
+                        ctx.fail(f're-blocked file of source {j}: stored header array {code} is not that source\'s '
+                                 f'(another source with the same samples was re-blocked before)', dict(desc, source=j))
+                        break
 
 
 def replay(ctx, rp):
